@@ -1715,6 +1715,8 @@ def return_census(ctx, crate, files):
         if len(bs) != 1:
             continue
         b = bs[0]
+        if getattr(b, "out_param_as_return", None):
+            continue        # (what it returns is what it used to write through its `&mut` parameter: not an answer the table knows)
         n += 1
         got = return_kinds(crate, b)
         new = sorted(got - set(want))
